@@ -1210,7 +1210,7 @@ def run():
                                        "(index, nil map, type assertion, crash after the response began) and located every crash site" % (len(crecs), len(cexpect)))
         # ---- the real servers
         nsrv = 1 if replay else (6 if thorough else 4)
-        budget = {"p2": None, "pairs": 150} if thorough else {"p2": 20, "pairs": 6}
+        budget = {"p2": None, "pairs": 150} if thorough else {"p2": None, "pairs": 6}
         span = (15 * 60) if thorough else 45
         fxs = []
 
@@ -1356,8 +1356,7 @@ def run():
         chk.cov["rule"] = ("records = requests actually sent to real ego servers (one per (route or route variant, abstract case) after dropping cases the route has no "
                            "item for and cases that instantiate to the same bytes), each judged by HandlerRequests!Holds in TLC; "
                            "non-trivial+distinct = distinct (route, abstract case) pairs; selection: well-formed request of every route, then "
-                           + ("every one-deviation case, then a seeded sample of %d two-deviation cases per route" % budget["pairs"] if thorough else
-                              "every one-deviation case of path/query/body/identity, a seeded sample of %d method/header deviations and %d two-deviation cases per route" % (budget["p2"], budget["pairs"]))
+                           + "every one-deviation case (path/query/body/identity first, then method and headers), then a seeded sample of %d two-deviation cases per route" % budget["pairs"]
                            + ", cut by a wall-clock deadline of %ds (depth, never routes)" % span)
         chk.cov["exhaustive"] = False
         for r in main[:2] + [r for r in main if len(deviations(r["c"])) == 2][:2]:
